@@ -329,7 +329,7 @@ func CmdCheck(args []string) int {
 		t0 := time.Now()
 		cmd := exec.Command("bash", "-c", bd.Cmd)
 		cmd.Dir = *verif
-		cmd.Env = append(os.Environ(), "GOFLAGS=-mod=mod", "GOPROXY=off", "GOSUMDB=off", "GOTOOLCHAIN=local", "VERIF_PROP="+*prop, "VERIF_TIER="+tier, fmt.Sprintf("VERIF_SEED=%d", seed))
+		cmd.Env = append(os.Environ(), "GOFLAGS=-mod=mod", "GOPROXY=off", "GOSUMDB=off", "GOTOOLCHAIN=local", "VERIF_PROP="+*prop, "VERIF_REPO="+*repo, "VERIF_TIER="+tier, fmt.Sprintf("VERIF_SEED=%d", seed))
 		out, err := cmd.CombinedOutput()
 		br := bres{Name: bd.Name, Bound: bd.Bound, Cmd: bd.Cmd, OK: err == nil, Secs: time.Since(t0).Seconds(), Out: trunc(string(out), 1500)}
 		bounded = append(bounded, br)
